@@ -4,6 +4,7 @@ import (
 	"container/list"
 	"crypto/sha256"
 	"maps"
+	"reflect"
 	"slices"
 	"strings"
 	"sync"
@@ -141,9 +142,11 @@ func (cache *Cache) Combine(signatures ...hotstuff.QuorumSignature) (hotstuff.Qu
 	return cache.impl.Combine(signatures...)
 }
 
-// writeSigners appends the claimed signer ids to a cache key: the same signature bytes
-// under other signer labels are a different signature.
+// writeSigners appends the signature's type and the claimed signer ids to a cache key: the same
+// signature bytes under another scheme's type or under other signer labels are a different signature.
 func writeSigners(key *strings.Builder, sig hotstuff.QuorumSignature) {
+	_, _ = key.WriteString(reflect.TypeOf(sig).String())
+	_ = key.WriteByte(0)
 	_, _ = key.Write(hotstuff.ID(sig.Participants().Len()).ToBytes())
 	sig.Participants().ForEach(func(id hotstuff.ID) {
 		_, _ = key.Write(id.ToBytes())
